@@ -40,6 +40,7 @@ SPECIAL_BASE_FAULTS = (
     + ["times-only-child-of-mapping-group", "times-neg-in-nested-mapping-group"]
     + ["times-neg-on-macro-use", "times-inverted-on-macro-use", "times-str-on-macro-use"]
     + ["deref-main-reg-null", "deref-offset-null", "deref-index-null"]
+    + ["macro-use-label-misspelt", "macro-use-argument-missing", "macro-use-operand-list-under-list-macro"]
     + [f"{g}-operand" for g in ("empty-$and", "empty-$or", "empty-$and_any_order", "empty-$not", "not-2-args", "not-3-args")]
     + ["not-2-args-deref-field", "empty-$or-deref-field"]
 )
@@ -131,6 +132,17 @@ def inject_rule_fault(fault, doc, pos, garbage):
         except Exception:  # noqa: BLE001
             return None, raw, None
     if fault in SPECIAL_BASE_FAULTS:
+        if fault.startswith("macro-use-"):
+            # an invocation that does not fit its macro (a wrongly written `pattern` entry): the argument under a label the macro does not
+            # have, no argument at all, an operand list under a macro that stands for whole instructions - the rule as written cannot
+            # be scanned; before F49 the formal's name was compiled as a literal (silent miss) / the operand list was dropped
+            if fault == "macro-use-label-misspelt":
+                pat[1] = [{"@yzero_": {"rg_": "eax"}}, {"@yzero_": None, "rg_": "eax"}, {"@yzero_": {"reg": "eax"}}][pos % 3]
+            elif fault == "macro-use-argument-missing":
+                pat[1] = ["@yzero_", {"@yzero_": None}, {"@yzero_": {"times": 1}}][pos % 3]
+            else:
+                pat[1] = [{"@yrun_": ["%ebx", "%eax"]}, {"@yrun_": ["zz"]}, {"@yrun_": "zz"}][pos % 3]
+            return doc, None, None
         if fault.startswith("times-"):
             kind = fault.split("-")[1]
             if fault == "times-only-child-of-mapping-group":
@@ -407,7 +419,15 @@ def evaluate(case):
             ev.tags.append("fault-not-applicable-here")
             return ev
         a0 = [0x10, 0x401000, 0xadd0][case["pos"] % 3]
-        if fault.startswith("times-"):
+        if fault.startswith("macro-use-"):
+            L = [[format(a0, "x"), "push", ["%rbp"], ["%rbp"]], [format(a0 + 1, "x"), "xor", ["%eax", "%eax"], ["%eax", "%eax"]], [format(a0 + 3, "x"), "ret", [], []]]
+            if fault == "macro-use-operand-list-under-list-macro":
+                pattern = ["push", "@yrun_", "ret"]
+                base_macros = [{"name": "@yrun_", "pattern": [{"$or": ["xor", "sub"]}]}]
+            else:
+                pattern = ["push", {"@yzero_": {"reg_": "eax"}}, "ret"]
+                base_macros = [{"name": "@yzero_", "args": ["reg_"], "pattern": [{"xor": ["reg_", "reg_"]}]}]
+        elif fault.startswith("times-"):
             L = [[format(a0, "x"), "push", ["%rbp"], ["%rbp"]], [format(a0 + 1, "x"), "nop", [], []], [format(a0 + 2, "x"), "nop", [], []], [format(a0 + 3, "x"), "ret", [], []]]
             if fault.endswith("-on-macro-use"):
                 pattern = ["push", {"@yrun_": {"times": 2}}, "ret"]
